@@ -629,6 +629,20 @@ fn define_extern_go(env: &mut PackageTypeEnv, diagnostics: &mut Diagnostics, ext
         None => tast::Ty::TUnit,
     };
 
+    // The Go qualifier of an extern is the last segment of its package path; a path that is empty
+    // or ends in `/` has none, and no valid import can be written for it.
+    if ext.package_path.rsplit('/').next().unwrap_or("").is_empty() {
+        diagnostics.push(Diagnostic::new(
+            Stage::Typer,
+            Severity::Error,
+            format!(
+                "extern {} needs a Go package path that names a package, got \"{}\"",
+                ext.goml_name.to_ident_name(),
+                ext.package_path
+            ),
+        ));
+    }
+
     let fn_ty = tast::Ty::TFunc {
         params: params.clone(),
         ret_ty: Box::new(ret.clone()),
